@@ -275,6 +275,50 @@ fn load(rule: &AnyRule, how: u64, res: &String) {
     }
 }
 
+fn edge_load_res(fam: &str, res: &String, _x: Option<()>) {
+    match fam {
+        "flow" => {
+            let _ = flow::load_rules_of_resource(res, vec![]);
+        }
+        "isolation" => {
+            let _ = isolation::load_rules_of_resource(res, vec![]);
+        }
+        "hotspot" => {
+            let _ = hotspot::load_rules_of_resource(res, vec![]);
+        }
+        "circuitbreaker" => {
+            let _ = cb::load_rules_of_resource(res, vec![]);
+        }
+        _ => system::load_rules(vec![]),
+    }
+}
+
+fn edge_load_all_empty(fam: &str) {
+    match fam {
+        "flow" => {
+            flow::load_rules(vec![]);
+        }
+        "isolation" => isolation::load_rules(vec![]),
+        "hotspot" => {
+            hotspot::load_rules(vec![]);
+        }
+        "circuitbreaker" => {
+            cb::load_rules(vec![]);
+        }
+        _ => system::load_rules(vec![]),
+    }
+}
+
+fn edge_clear_res(fam: &str, res: &String) {
+    match fam {
+        "flow" => flow::clear_rules_of_resource(res),
+        "isolation" => isolation::clear_rules_of_resource(res),
+        "hotspot" => hotspot::clear_rules_of_resource(res),
+        "circuitbreaker" => cb::clear_rules_of_resource(res),
+        _ => system::clear_rules(),
+    }
+}
+
 fn active_ids(fam: &str) -> Vec<String> {
     match fam {
         "flow" => flow::get_rules().iter().map(|r| r.id.clone()).collect(),
@@ -340,7 +384,7 @@ fn run_case(rng: &mut Rng) -> (Outcome, Value) {
     let how_name = ["load_rules", "load_rules_of_resource", "append_rule"][how as usize];
     let fam = rule.family();
     let valid = rule.is_valid();
-    let case = json!({"family": fam, "rule": rule.describe(), "valid": valid, "entry_point": how_name});
+    let mut case = json!({"family": fam, "rule": rule.describe(), "valid": valid, "entry_point": how_name});
     macro_rules! fail {
         ($sig:expr, $detail:expr, $poison:expr) => {{
             out.violation = Some(($sig, $detail));
@@ -352,10 +396,40 @@ fn run_case(rng: &mut Rng) -> (Outcome, Value) {
     if let Err(p) = common::catch(|| load(&rule, how, &res)) {
         fail!(format!("panic/{fam}/{how_name}/{}/{}", if valid { "valid-rule" } else { "invalid-rule" }, common::panic_site(&p)), format!("{how_name} panicked: {p}"), true);
     }
+    // ---- edge calls of the management API around the rule (empty lists, unknown and
+    // empty resource names, repeated calls): refused or ignored, never a panic or a stall
+    let edge = rng.below(9);
+    let edge_name = ["none", "load_rules_of_resource(res, [])", "load_rules([])", "clear_rules_of_resource(unknown)", "load_rules_of_resource(\"\", [rule])", "same call again", "clear_rules_of_resource(res) twice", "load_rules_of_resource(other, [])", "clear_rules twice"][edge as usize];
+    PROGRESS.fetch_add(1, Ordering::SeqCst);
+    let unknown = fresh_name("c12-unknown");
+    let edge_result = common::catch(|| match edge {
+        1 => edge_load_res(fam, &res, None),
+        2 => edge_load_all_empty(fam),
+        3 => edge_clear_res(fam, &unknown),
+        4 => load(&rule, 1, &String::new()),
+        5 => load(&rule, how, &res),
+        6 => {
+            edge_clear_res(fam, &res);
+            edge_clear_res(fam, &res);
+        }
+        7 => edge_load_res(fam, &unknown, None),
+        8 => {
+            clear_all();
+            clear_all();
+        }
+        _ => {}
+    });
+    if let Err(p) = edge_result {
+        fail!(format!("panic/{fam}/edge-call/{}", common::panic_site(&p)), format!("{edge_name} panicked: {p}"), true);
+    }
+    // after clearing calls the rule is legitimately gone
+    let cleared = matches!(edge, 1 | 2 | 6 | 8);
     let active = match common::catch(|| active_ids(fam)) {
         Ok(a) => a,
         Err(p) => fail!(format!("panic/{fam}/get_rules/{}", common::panic_site(&p)), p, true),
     };
+    case["edge_call"] = json!(edge_name);
+    let _ = cleared;
     if !valid && active.contains(&rule.id()) {
         fail!(format!("invalid-rule-active/{fam}/{how_name}"), "a rule refused by is_valid() is reported by get_rules()".to_string(), false);
     }
@@ -423,7 +497,7 @@ fn run_case(rng: &mut Rng) -> (Outcome, Value) {
     if let Err(p) = health_probe() {
         fail!(format!("unusable-after/{fam}/{how_name}/{}", common::panic_site(&p)), format!("health probe failed after the case: {p}"), true);
     }
-    out.sig = Some(format!("{}|{}|{}", rule.class(), if valid { "valid" } else { "invalid" }, how_name));
+    out.sig = Some(format!("{}|{}|{}|edge{}", rule.class(), if valid { "valid" } else { "invalid" }, how_name, (edge > 0) as u8));
     (out, case)
 }
 
